@@ -34,7 +34,9 @@ RULE = ("solver = (problem spec, parameter spec, op list of 2..6 ops over I1,I2,
         "(random family / dimension 1..4 / box) 45%, GKLS 20%, Grishagin 12%, other shipped 23%; in 35% of the cases the "
         "second solver gets the SAME shipped function or another index of the same class; parameters: eps in "
         "{0.5..0.003}, r in [1.5,5], itersLimit in {3..60}, evolventDensity 3..12, refineSolution 25%; 10% default "
-        "parameters (1-D problems only, so that Solve stays short). Schedule: random interleaving (thorough: plus all "
+        "parameters (1-D problems only, so that Solve stays short), 12% of the others the default object with step operations only, 28% ONE "
+        "explicit SolverParameters object shared by the solvers of the case; logged problems up to dimension 6 (N*density > 52); 8% "
+        "'hash twins' (two configurations differing only in values with equal Python hash: -1/-2, 0.0/-0.0). Schedule: random interleaving (thorough: plus all "
         "interleavings of two lists). Non-trivial: at least two solvers each perform a trial and at least one Solution "
         "object is re-read after another solver has moved. Distinct by the literal case description.")
 
@@ -53,7 +55,7 @@ def gen_solver_spec(r, like=None, short=False):
                 pk["args"] = [r.randrange(1000)]
         prob = pk
     elif u < 0.45:
-        n = r.choice([1, 1, 2, 2, 3, 4])
+        n = r.choice([1, 1, 2, 2, 3, 4, 5, 6])
         lo, hi = oc.gen_box(r, n)
         prob = {"kind": "logged", "spec": objectives.gen_spec(r, n), "lower": lo, "upper": hi}
     elif u < 0.65:
@@ -67,8 +69,13 @@ def gen_solver_spec(r, like=None, short=False):
         prob = {"kind": k, "args": args}
     one_d = (prob["kind"] in ("hill", "shekel") or (prob["kind"] == "logged" and len(prob["lower"]) == 1)
              or (prob["kind"] in ("rastrigin", "xsquared") and prob["args"][0] == 1))
-    if one_d and r.random() < 0.25:
+    w = r.random()
+    if one_d and w < 0.25:
         params = "default"
+    elif not one_d and w < 0.12:
+        params = "default-steps"        # the shared default parameters object, any dimension: only I/G operations (no Solve)
+    elif w < 0.40:
+        params = "shared"               # ONE SolverParameters object handed to every solver of the case that says "shared"
     else:
         params = {"eps": r.choice([0.5, 0.1, 0.05, 0.02, 0.01, 0.003]), "r": round(r.uniform(1.5, 5), 2),
                   "itersLimit": r.choice([3, 5, 8, 12, 20, 35, 60]), "evolventDensity": r.randint(3, 12),
@@ -77,12 +84,19 @@ def gen_solver_spec(r, like=None, short=False):
     ops = [r.choice(["I1", "I1", "I2", "I3", "S", "G", "G", "R"]) for _ in range(nops)]
     if params == "default":
         ops = [o for o in ops if o != "R"] or ["I1", "G"]
+    if params == "default-steps":
+        ops = [o for o in ops if o not in ("R", "S")] or ["I1", "G"]
     if prob["kind"] == "stronginc3":
         pass
     return {"problem": prob, "params": params, "ops": ops}
 
 
-def build(spec):
+SHARED_PARAMS = {"eps": 0.02, "r": 3.1, "itersLimit": 25, "evolventDensity": 10, "refineSolution": False}
+
+
+def build(spec, shared=None):
+    """shared: a one-element list holding the SolverParameters object common to the "shared" solvers of the run (created on
+    first use), so that the interleaved run really passes ONE object to several solvers and a solo run its own equal one"""
     from iOpt.solver import Solver
     from iOpt.solver_parametrs import SolverParameters
     p = spec["problem"]
@@ -91,8 +105,13 @@ def build(spec):
         prob = implmod.LoggedProblem.make(fn, p["lower"], p["upper"])
     else:
         prob = oc.attach_log(problems_stream.construct(p["kind"], tuple(p["args"])))
-    if spec["params"] == "default":
+    if spec["params"] in ("default", "default-steps"):
         sv = Solver(prob)
+    elif spec["params"] == "shared":
+        shared = shared if shared is not None else [None]
+        if shared[0] is None:
+            shared[0] = SolverParameters(**SHARED_PARAMS)
+        sv = Solver(prob, shared[0])
     else:
         q = spec["params"]
         sv = Solver(prob, SolverParameters(eps=q["eps"], r=q["r"], itersLimit=q["itersLimit"],
@@ -136,27 +155,47 @@ def solo(spec):
     return rec, final
 
 
-def run_case(case, solos=None):
-    """returns (violations, info)"""
+def _norm(x):
+    import json
+    return json.loads(json.dumps(x, default=str))
+
+
+def solo_json(spec):
+    rec, final = solo(spec)
+    return _norm([rec, final])
+
+
+def interleaved(case):
+    """the interleaved run alone: after every step the observation of every solver built so far; then the final snapshots"""
     specs = case["solvers"]
-    if solos is None:
-        solos = [solo(s) for s in specs]
     states = [None] * len(specs)
-    viol = []
+    shared = [None]
     if case["construct"] == "upfront":
         for i in case.get("order", range(len(specs))):
-            states[i] = build(specs[i])
-    reread_after_other = 0
+            states[i] = build(specs[i], shared)
+    steps = []
     for step, who in enumerate(case["schedule"]):
         if states[who] is None:
-            states[who] = build(specs[who])
+            states[who] = build(specs[who], shared)
         st = states[who]
         do_op(st, specs[who]["ops"][st["done"]])
-        for i, s in enumerate(states):
-            if s is None:
-                continue
-            ob = observe(s)
-            want = solos[i][0][s["done"]]
+        steps.append([step, who, [[i, s["done"], observe(s)] for i, s in enumerate(states) if s is not None]])
+    finals = []
+    for i, s in enumerate(states):
+        if s is None:
+            s = states[i] = build(specs[i], shared)
+        finals.append([s["done"], oc.solution_snapshot(s["solver"].GetResults())])
+    return _norm([steps, finals])
+
+
+def compare(case, inter, solos):
+    specs = case["solvers"]
+    steps, finals = inter
+    viol = []
+    reread_after_other = 0
+    for step, who, obs in steps:
+        for i, done, ob in obs:
+            want = solos[i][0][done]
             if i != who and ob["snaps"]:
                 reread_after_other += 1
             if ob["log"] != want["log"]:
@@ -175,26 +214,74 @@ def run_case(case, solos=None):
         if viol:
             break
     if not viol:
-        for i, s in enumerate(states):
-            if s is None:
-                s = states[i] = build(specs[i])
-            fin = oc.solution_snapshot(s["solver"].GetResults())
-            if s["done"] == len(specs[i]["ops"]) and fin != solos[i][1]:
+        for i, (done, fin) in enumerate(finals):
+            if done == len(specs[i]["ops"]) and fin != solos[i][1]:
                 viol.append({"what": "final result differs from the solo run", "solver": i, "got": fin, "solo": solos[i][1]})
     trials = [len([e for e in solos[i][0][-1]["log"] if e[0] == "global"]) for i in range(len(specs))]
     return viol, {"reread_after_other": reread_after_other, "trials": trials}
 
 
+def run_case(case, solos=None):
+    """returns (violations, info). With case["fresh"] the interleaved run and every solo reference are each made in their OWN
+    fresh interpreter: state that leaks between solver instances through class attributes, module globals or shared default
+    objects would otherwise contaminate the references too (they run in the same process, after other solvers)."""
+    specs = case["solvers"]
+    if case.get("fresh"):
+        res = oc.fresh_map("c12", "solo_json", specs) + [oc.fresh_call("c12", "interleaved", case)]
+        return compare(case, res[-1], res[:-1])
+    if solos is None:
+        solos = [solo_json(s) for s in specs]
+    return compare(case, interleaved(case), solos)
+
+
+def twin_specs(r):
+    """two solvers whose configurations differ ONLY in values that Python hashes alike (-1 and -2; 0.0, -0.0 and 0; 1 and 1.0):
+    anything keyed by a hash of the configuration confuses them"""
+    n = r.choice([1, 2, 2, 3])
+    a, b = r.choice([(-1.0, -2.0), (-1.0, -2.0), (0.0, -0.0), (-2.0, -1.0)])
+    hi = [float(r.choice([1, 2, 3]))] * n
+    spec = objectives.gen_spec(r, n)
+    params = {"eps": r.choice([0.1, 0.05, 0.02]), "r": round(r.uniform(1.5, 5), 2), "itersLimit": r.choice([8, 12, 20]),
+              "evolventDensity": r.randint(3, 10), "refineSolution": False}
+    ops = [r.choice(["I1", "I2", "I3", "G"]) for _ in range(r.randint(3, 6))]
+    mk = lambda lo: {"problem": {"kind": "logged", "spec": spec, "lower": [lo] * n, "upper": list(hi)},
+                     "params": dict(params), "ops": list(ops)}
+    return [mk(a), mk(b)]
+
+
 def gen_case(r, short=False):
     k = 2 if (short or r.random() < 0.7) else 3
-    specs = [gen_solver_spec(r, short=short)]
-    for _ in range(k - 1):
-        specs.append(gen_solver_spec(r, like=specs[0] if r.random() < 0.35 else None, short=short))
+    twins = big = False
+    if not short and r.random() < 0.08:
+        specs = twin_specs(r)
+        k = 2
+        twins = True
+    elif not short and r.random() < 0.07:
+        # a solver in a high dimension (N * default density 10 > 52) next to others, all on the default / one shared parameters object
+        n = r.choice([6, 7])
+        lo, hi = oc.gen_box(r, n)
+        pk = r.choice(["default-steps", "shared"])
+        bigs = {"problem": {"kind": "logged", "spec": objectives.gen_spec(r, n), "lower": lo, "upper": hi}, "params": pk,
+               "ops": [r.choice(["I1", "I2", "G"]) for _ in range(r.randint(2, 4))]}
+        other = gen_solver_spec(r, short=short)
+        other["params"] = pk
+        other["ops"] = [o for o in other["ops"] if o not in ("R", "S")] or ["I2", "G"]
+        specs = [bigs, other]
+        k = 2
+        big = True
+    else:
+        specs = [gen_solver_spec(r, short=short)]
+        for _ in range(k - 1):
+            specs.append(gen_solver_spec(r, like=specs[0] if r.random() < 0.35 else None, short=short))
     sched = [i for i, s in enumerate(specs) for _ in s["ops"]]
     r.shuffle(sched)
     order = list(range(k))
     r.shuffle(order)
-    return {"solvers": specs, "schedule": sched, "construct": r.choice(["upfront", "lazy"]), "order": order}
+    case = {"solvers": specs, "schedule": sched, "construct": r.choice(["upfront", "lazy"]), "order": order}
+    shared_state = any(not isinstance(s_["params"], dict) for s_ in specs)
+    if not short and (twins or big or (shared_state and r.random() < 0.2) or r.random() < 0.04):
+        case["fresh"] = True        # references from fresh interpreters
+    return case
 
 
 def all_interleavings(n0, n1):
@@ -218,32 +305,48 @@ def run(tier, r):
         for s in case["solvers"]:
             k = s["problem"]["kind"]
             stats["problem_kinds"][k] = stats["problem_kinds"].get(k, 0) + 1
-            stats["default_params"] += s["params"] == "default"
-            stats["refine"] += s["params"] != "default" and s["params"]["refineSolution"]
+            stats["default_params"] += s["params"] in ("default", "default-steps")
+            stats["shared_params_object"] = stats.get("shared_params_object", 0) + (s["params"] == "shared")
+            stats["refine"] += isinstance(s["params"], dict) and s["params"]["refineSolution"]
         ks = [s["problem"]["kind"] for s in case["solvers"]]
         stats["same_class_pairs"] += len(set(ks)) < len(ks) and ks[0] != "logged"
         stats["three_solvers"] += len(ks) == 3
 
-    def one(case, solos=None):
+    def one(case, solos=None, precomputed=None):
         nonlocal explored, nontriv
-        v, info = run_case(case, solos)
+        v, info = precomputed if precomputed is not None else run_case(case, solos)
         explored += 1
         stats["schedules"] += 1
         stats["steps"] += len(case["schedule"])
         stats["trials"] += sum(info["trials"])
         stats["lazy_construction"] += case["construct"] == "lazy"
+        stats["fresh_interpreter_references"] = stats.get("fresh_interpreter_references", 0) + bool(case.get("fresh"))
         if sum(1 for t in info["trials"] if t > 0) >= 2 and info["reread_after_other"] > 0:
             nontriv += 1
         for x in v:
             x.update({"property": "C12", "case": case})
         viol.extend(v)
 
-    for _ in range(ncases):
+    cases = [gen_case(r) for _ in range(ncases)]          # the whole schedule is a function of r only
+    # cases whose references come from fresh interpreters: several at a time (each spawns its own interpreters)
+    from concurrent.futures import ThreadPoolExecutor
+    fresh = [c for c in cases if c.get("fresh")]
+    with ThreadPoolExecutor(6) as ex:
+        fresh_res = list(ex.map(lambda c: oc.guarded_any(run_case, c), fresh))
+    pre = {id(c): res for c, res in zip(fresh, fresh_res)}
+    for case in cases:
         if bud.over() or len(viol) >= 8:
             break
-        case = gen_case(r)
         account(case)
-        one(case)
+        if id(case) in pre:
+            res, err = pre[id(case)]
+            if err is not None:
+                viol.append({"property": "C12", "case": case, "what": "the case could not be run in fresh interpreters", "observed": err})
+                explored += 1
+                continue
+            one(case, precomputed=res)
+        else:
+            one(case)
         if len(samples) < 2 and len(case["schedule"]) <= 7:
             samples.append(case)
     for _ in range(nenum):
@@ -258,7 +361,7 @@ def run(tier, r):
             if "G" not in s["ops"] and "S" not in s["ops"]:
                 s["ops"][r.randrange(n - 1)] = "G"
         account(base)
-        solos = [solo(s) for s in base["solvers"]]
+        solos = [solo_json(s) for s in base["solvers"]]
         stats["enumerated_pairs"] += 1
         for sched in all_interleavings(len(base["solvers"][0]["ops"]), len(base["solvers"][1]["ops"])):
             case = dict(base, schedule=sched, construct=r.choice(["upfront", "lazy"]))
